@@ -174,13 +174,14 @@ int node_insert_branch(BPlusNode *node, PyObject *key, BPlusNode *right_child,
         
         /* Split at midpoint */
         int mid = node->capacity / 2;
+        /* Every key in temp_keys is already owned: the existing ones by this node, the
+         * incoming `key` by the reference the child split handed up. The references move:
+         * the promoted key's goes to the caller, the others to the two halves. */
         *split_key = temp_keys[mid];
-        Py_INCREF(*split_key);
         
         /* Keep first half in current node */
         node->num_keys = mid;
         for (int i = 0; i < mid; i++) {
-            Py_INCREF(temp_keys[i]);
             node_set_key(node, i, temp_keys[i]);
         }
         for (int i = 0; i <= mid; i++) {
@@ -190,7 +191,6 @@ int node_insert_branch(BPlusNode *node, PyObject *key, BPlusNode *right_child,
         /* Move second half to new node */
         (*new_node)->num_keys = node->capacity - mid;
         for (int i = 0; i < (*new_node)->num_keys; i++) {
-            Py_INCREF(temp_keys[mid + 1 + i]);
             node_set_key(*new_node, i, temp_keys[mid + 1 + i]);
         }
         for (int i = 0; i <= (*new_node)->num_keys; i++) {
@@ -210,8 +210,8 @@ int node_insert_branch(BPlusNode *node, PyObject *key, BPlusNode *right_child,
         node_set_child(node, i + 1, node_get_child(node, i));
     }
     
-    /* Insert new key and child */
-    Py_INCREF(key);
+    /* Insert new key and child; `key` is the owned reference handed up by the child
+     * split, so the node takes it over without a further INCREF */
     node_set_key(node, pos, key);
     node_set_child(node, pos + 1, right_child);
     node->num_keys++;
